@@ -25,7 +25,7 @@ use std::ops::Deref;
 use std::time::Duration;
 
 thread_local! {
-    static OS_IPC_CHANNELS_FOR_DESERIALIZATION: RefCell<Vec<OsOpaqueIpcChannel>> =
+    static OS_IPC_CHANNELS_FOR_DESERIALIZATION: RefCell<Vec<Option<OsOpaqueIpcChannel>>> =
         RefCell::new(Vec::new())
 }
 thread_local! {
@@ -517,14 +517,7 @@ impl IpcReceiverSet {
                     os_ipc_shared_memory_regions,
                 ) => IpcSelectionResult::MessageReceived(
                     os_receiver_id,
-                    OpaqueIpcMessage {
-                        data,
-                        os_ipc_channels,
-                        os_ipc_shared_memory_regions: os_ipc_shared_memory_regions
-                            .into_iter()
-                            .map(Some)
-                            .collect(),
-                    },
+                    OpaqueIpcMessage::new(data, os_ipc_channels, os_ipc_shared_memory_regions),
                 ),
                 OsIpcSelectionResult::ChannelClosed(os_receiver_id) => {
                     IpcSelectionResult::ChannelClosed(os_receiver_id)
@@ -585,13 +578,17 @@ impl<'de> Deserialize<'de> for IpcSharedMemory {
         } else {
             let os_shared_memory = OS_IPC_SHARED_MEMORY_REGIONS_FOR_DESERIALIZATION.with(
                 |os_ipc_shared_memory_regions_for_deserialization| {
-                    // FIXME(pcwalton): This could panic if the data was corrupt and the index was out
-                    // of bounds. We should return an `Err` result instead.
-                    os_ipc_shared_memory_regions_for_deserialization.borrow_mut()[index]
-                        .take()
-                        .unwrap()
+                    // The index comes from the byte stream: it may be out of bounds
+                    // or refer to a region that was already taken.
+                    os_ipc_shared_memory_regions_for_deserialization
+                        .borrow_mut()
+                        .get_mut(index)
+                        .and_then(Option::take)
                 },
             );
+            let os_shared_memory = os_shared_memory.ok_or_else(|| {
+                serde::de::Error::custom("invalid or reused shared memory region index in IPC message")
+            })?;
             Ok(IpcSharedMemory {
                 os_shared_memory: Some(os_shared_memory),
             })
@@ -698,7 +695,7 @@ impl IpcSelectionResult {
 /// [to]: #method.to
 pub struct OpaqueIpcMessage {
     data: Vec<u8>,
-    os_ipc_channels: Vec<OsOpaqueIpcChannel>,
+    os_ipc_channels: Vec<Option<OsOpaqueIpcChannel>>,
     os_ipc_shared_memory_regions: Vec<Option<OsIpcSharedMemory>>,
 }
 
@@ -719,7 +716,7 @@ impl OpaqueIpcMessage {
     ) -> OpaqueIpcMessage {
         OpaqueIpcMessage {
             data,
-            os_ipc_channels,
+            os_ipc_channels: os_ipc_channels.into_iter().map(Some).collect(),
             os_ipc_shared_memory_regions: os_ipc_shared_memory_regions
                 .into_iter()
                 .map(Some)
@@ -888,12 +885,7 @@ where
 
     pub fn accept(self) -> Result<(IpcReceiver<T>, T), bincode::Error> {
         let (os_receiver, data, os_channels, os_shared_memory_regions) = self.os_server.accept()?;
-        let value = OpaqueIpcMessage {
-            data,
-            os_ipc_channels: os_channels,
-            os_ipc_shared_memory_regions: os_shared_memory_regions.into_iter().map(Some).collect(),
-        }
-        .to()?;
+        let value = OpaqueIpcMessage::new(data, os_channels, os_shared_memory_regions).to()?;
         Ok((
             IpcReceiver {
                 os_receiver,
@@ -1008,10 +1000,21 @@ where
     D: Deserializer<'de>,
 {
     let index: usize = Deserialize::deserialize(deserializer)?;
+    take_os_ipc_channel_for_deserialization(index)
+        .map(|mut os_ipc_channel| os_ipc_channel.to_sender())
+        .ok_or_else(|| serde::de::Error::custom("invalid or reused channel index in IPC message"))
+}
+
+/// Take the attachment with the given index out of the message being deserialized.
+///
+/// The index comes from the byte stream, so it may be out of bounds or refer to
+/// a channel that was already handed out; both yield `None`.
+fn take_os_ipc_channel_for_deserialization(index: usize) -> Option<OsOpaqueIpcChannel> {
     OS_IPC_CHANNELS_FOR_DESERIALIZATION.with(|os_ipc_channels_for_deserialization| {
-        // FIXME(pcwalton): This could panic if the data was corrupt and the index was out of
-        // bounds. We should return an `Err` result instead.
-        Ok(os_ipc_channels_for_deserialization.borrow_mut()[index].to_sender())
+        os_ipc_channels_for_deserialization
+            .borrow_mut()
+            .get_mut(index)
+            .and_then(Option::take)
     })
 }
 
@@ -1037,9 +1040,7 @@ where
 {
     let index: usize = Deserialize::deserialize(deserializer)?;
 
-    OS_IPC_CHANNELS_FOR_DESERIALIZATION.with(|os_ipc_channels_for_deserialization| {
-        // FIXME(pcwalton): This could panic if the data was corrupt and the index was out
-        // of bounds. We should return an `Err` result instead.
-        Ok(os_ipc_channels_for_deserialization.borrow_mut()[index].to_receiver())
-    })
+    take_os_ipc_channel_for_deserialization(index)
+        .map(|#[allow(unused_mut)] mut os_ipc_channel| os_ipc_channel.to_receiver())
+        .ok_or_else(|| serde::de::Error::custom("invalid or reused channel index in IPC message"))
 }
